@@ -117,7 +117,8 @@ Definition diff_fields (a b : obs) : list N :=
   (if list_eqb keyrec_eqb (ob_store a) (ob_store b) then [] else [8%N]) ++
   (if cval_eqb (ob_jar a) (ob_jar b) then [] else [9%N]) ++
   (if Z.eqb (ob_now a) (ob_now b) then [] else [10%N]) ++
-  (if N.eqb (ob_drawn a) (ob_drawn b) then [] else [11%N]).
+  (if N.eqb (ob_drawn a) (ob_drawn b) then [] else [11%N]) ++
+  (if list_eqb Bool.eqb (ob_expired a) (ob_expired b) then [] else [12%N]).
 
 Definition hcase := (cfg * list hop * list obs)%type.
 
